@@ -271,3 +271,40 @@ def m_dh(ex, a, callee, canon):
 @model(r"(^|::)SharedSecret::as_bytes$")
 def m_shared_bytes(ex, a, callee, canon):
     return Ptr([Arr([Int(t, "u8") for t in be_bytes(deref(a[0]).payload, 32)])], 0)
+
+
+# ---------------------------------------------------------------- ECDH written as an explicit point multiplication
+@model(r"(^|::)PublicKey::to_projective$|(^|::)ProjectivePoint::to_affine$")
+def m_sign_point_identity(ex, a, callee, canon):
+    return deref(a[0])
+
+
+@model(r"^<(\w+::)*ProjectivePoint as Mul<(\w+::)*Scalar>>::mul$")
+def m_sign_point_mul(ex, a, callee, canon):
+    p, k = deref(a[0]), scalar_of(a[1])
+    if k is None or not isinstance(p, Opaque) or not isinstance(p.payload, Bytes):
+        raise Unsupported("point multiplication on " + repr(p)[:60])
+    return Opaque("SharedPoint", (k, p.payload.s))
+
+
+@model(r"ToEncodedPoint(<.*>)?>::to_encoded_point$")
+def m_sign_shared_to_encoded_point(ex, a, callee, canon):
+    """SEC1 encoding of scalar * peer point: the x coordinate is the SAME term the Diffie-Hellman primitive yields (both encodings
+    carry it after the tag byte); the uncompressed form appends the y coordinate"""
+    p = deref(a[0])
+    if not (isinstance(p, Opaque) and p.tag == "SharedPoint"):
+        raise Unsupported("to_encoded_point on " + repr(p)[:60])
+    k, peer = p.payload
+    flag = deref(a[1])
+    ft = flag.t if isinstance(flag, Bool) else (flag.t != 0)
+    x = be_bytes(uf("ECDH_SHARED_X", B256, SEQ, B256)(k, peer), 32)
+    if ex.decide(ft):
+        tag = uf("ECDH_SHARED_TAG", B256, SEQ, z3.BitVecSort(8))(k, peer)
+        return Opaque("EncodedPoint", Bytes(seq_of([tag] + x)))
+    y = be_bytes(uf("ECDH_SHARED_Y", B256, SEQ, B256)(k, peer), 32)
+    return Opaque("EncodedPoint", Bytes(seq_of([z3.BitVecVal(4, 8)] + x + y)))
+
+
+@model(r"(^|::)EncodedPoint::as_bytes$")
+def m_sign_point_as_bytes(ex, a, callee, canon):
+    return Ptr([deref(a[0]).payload], 0)
